@@ -194,8 +194,21 @@ def hunk_header_pattern(ctx):
         r.undecidable(D, "scan_diff not found")
         return
     pats = []
+    # only the pattern whose captures become the range: the Range aggregate derives from Regex::captures on it
+    range_calls = set()
+    for bb, i, st in sd.stmts():
+        if st[0] == "=" and st[2][0] == "agg" and isinstance(st[2][1], list) and st[2][1][0] == "adt" and st[2][1][1].endswith("::Range"):
+            for op in st[2][2]:
+                if op[0] != "k":
+                    for cc in sd.derived_from(op[1][0])["calls"]:
+                        range_calls.add(id(cc))
     for c in sd.calls():
         if c.name.endswith("Regex::new") and c.args and c.args[0][0] != "k":
+            feeds = any(id(cc) in range_calls for cc in sd.calls()
+                        if cc.name.endswith("Regex::captures") and cc.args and cc.args[0][0] != "k"
+                        and c in sd.derived_from(cc.args[0][1][0])["calls"])
+            if range_calls and not feeds:
+                continue
             for k in sd.derived_from(c.args[0][1][0])["consts"]:
                 if isinstance(k[2], dict) and isinstance(k[2].get("str"), str) and "@@" in k[2]["str"]:
                     pats.append((k[2]["str"], c))
